@@ -57,15 +57,27 @@ impl TomlFormat<'_> {
 }
 
 fn bare_allowed(s: &str) -> bool {
-	s.bytes()
-		.all(|c| matches!(c, b'A'..=b'Z' | b'a'..=b'z' | b'0'..=b'9' | b'_' | b'-'))
+	// A bare key must be non-empty
+	!s.is_empty()
+		&& s.bytes()
+			.all(|c| matches!(c, b'A'..=b'Z' | b'a'..=b'z' | b'0'..=b'9' | b'_' | b'-'))
+}
+
+/// JSON escaping, plus DEL, which TOML does not allow unescaped in basic strings
+fn escape_string_toml_buf(s: &str, buf: &mut String) {
+	let start = buf.len();
+	escape_string_json_buf(s, buf);
+	if buf[start..].contains('\u{7f}') {
+		let escaped = buf.split_off(start);
+		buf.push_str(&escaped.replace('\u{7f}', "\\u007f"));
+	}
 }
 
 fn escape_key_toml_buf(key: &str, buf: &mut String) {
 	if bare_allowed(key) {
 		buf.push_str(key);
 	} else {
-		escape_string_json_buf(key, buf);
+		escape_string_toml_buf(key, buf);
 	}
 }
 
@@ -100,7 +112,7 @@ fn manifest_value(
 		Val::Bool(true) => buf.push_str("true"),
 		Val::Bool(false) => buf.push_str("false"),
 		Val::Str(s) => {
-			escape_string_json_buf(&s.clone().into_flat(), buf);
+			escape_string_toml_buf(&s.clone().into_flat(), buf);
 		}
 		Val::Num(n) => write!(buf, "{n}").unwrap(),
 		#[cfg(feature = "exp-bigint")]
